@@ -347,19 +347,19 @@ Section Sem.
     induction f as [| |neg x|a IHa b IHb|a IHa b IHb]; intros Hd Hp; cbn [eval vars sat decomposable] in *.
     - cbn [fst snd sr_one]. split; [|reflexivity]. split; [constructor|split]; cbn; [tauto|reflexivity].
     - cbn in Hp. discriminate.
-    - destruct neg; cbn [fst snd pos_value neg_value] in *.
+    - destruct neg; unfold pos_value, neg_value in *; cbn [fst snd] in *.
       + split.
         * split; [|split]; cbn [fst snd map lvar].
           -- constructor; [intros []|constructor].
           -- intros y. reflexivity.
           -- unfold wprod, wlit. cbn [fold_right fst snd]. ring.
-        * intros A Ha. rewrite (Ha (true, x) (or_introl eq_refl)). reflexivity.
+        * intros A Ha. pose proof (Ha (true, x) (or_introl eq_refl)) as E. cbn [fst snd] in E. rewrite E. reflexivity.
       + split.
         * split; [|split]; cbn [fst snd map lvar].
           -- constructor; [intros []|constructor].
           -- intros y. reflexivity.
           -- unfold wprod, wlit. cbn [fold_right fst snd]. ring.
-        * intros A Ha. rewrite (Ha (false, x) (or_introl eq_refl)). reflexivity.
+        * intros A Ha. pose proof (Ha (false, x) (or_introl eq_refl)) as E. cbn [fst snd] in E. rewrite E. reflexivity.
     - apply andb_true_iff in Hd. destruct Hd as [Hd Hdis]. apply andb_true_iff in Hd. destruct Hd as [Hda Hdb].
       pose proof (eval_nonneg a) as Na. pose proof (eval_nonneg b) as Nb.
       destruct (eval wpos wneg a) as [va ua]. destruct (eval wpos wneg b) as [vb ub]. cbn [fst snd sr_times] in *.
